@@ -4,6 +4,7 @@ import (
 	"fmt"
 	"go/token"
 	"regexp"
+	"sort"
 	"strings"
 
 	"golang.org/x/tools/go/ssa"
@@ -379,6 +380,40 @@ func ruleC05_3(c *Ctx) {
 	for name := range want {
 		if !seen[name] {
 			c.bad(R, fn, "summary."+name, f.Pos(), "summary link's "+name+" is never set")
+		}
+	}
+	// the endpoints are reported for every layout that has steps: the conditions under which Materials / Products are
+	// set, evaluated for a layout with exactly one step, hold (and for no steps, some condition fails)
+	isSteps := func(v ssa.Value) bool { return org(v) == "p0.Steps" }
+	for _, b := range f.Blocks {
+		for _, in := range b.Instrs {
+			st, ok := in.(*ssa.Store)
+			if !ok {
+				continue
+			}
+			fa, ok := st.Addr.(*ssa.FieldAddr)
+			if !ok || typeStr(fa.X.Type()) != "*in_toto.Link" {
+				continue
+			}
+			name := fieldName(fa.X.Type(), fa.Field)
+			if name != "Materials" && name != "Products" {
+				continue
+			}
+			one, zero := true, true
+			nEval := 0
+			for _, ft := range c.factsAt(b) {
+				if v1, ok1 := evalLenCond(ft.v, isSteps, 1); ok1 {
+					nEval++
+					if v1 != ft.val {
+						one = false
+					}
+					if v0, _ := evalLenCond(ft.v, isSteps, 0); v0 != ft.val {
+						zero = false
+					}
+				}
+			}
+			c.check(one, R, fn, "summary."+name+" is set for a one-step layout", st.Pos(), fmt.Sprintf("%d length condition(s) hold for len(layout.Steps) == 1", nEval), "the summary link's "+name+" is not set for a layout with exactly one step: a one-step sublayout is summarised as an empty link")
+			c.check(nEval == 0 || !zero, R, fn, "summary."+name+" is guarded against a layout without steps", st.Pos(), "some length condition fails for len(layout.Steps) == 0", "Steps[0] is read for a layout without steps")
 		}
 	}
 }
@@ -1347,6 +1382,31 @@ func ruleC09_4(c *Ctx) {
 	}
 	c.check(okErr, R, fn, "command failure fails", rc.Pos(), "non-nil side is a failing continuation", "RunCommand's error is not fatal")
 	c.check(org(rc.Common().Args[0]) == "p4" && org(rc.Common().Args[1]) == "p1", R, fn, "command and run dir are the parameters", rc.Pos(), "RunCommand(cmdArgs, runDir)", "RunCommand("+org(rc.Common().Args[0])+", "+org(rc.Common().Args[1])+")")
+	// every non-empty command is handed to RunCommand: the call is control-dependent only on the emptiness test of the
+	// command and on earlier stages having succeeded; any further condition silently skips commands (which RunCommand
+	// would run, or refuse with an error)
+	isCmd := func(v ssa.Value) bool { return org(v) == "p4" }
+	var extra []string
+	for _, ft := range c.factsAt(rc.Block()) {
+		if v1, ok := evalLenCond(ft.v, isCmd, 1); ok {
+			if v1 != ft.val {
+				extra = append(extra, "a length condition that excludes one-element commands")
+			}
+			continue
+		}
+		if bo, ok := ft.v.(*ssa.BinOp); ok && (bo.Op == token.EQL || bo.Op == token.NEQ) && (isNilConst(bo.X) || isNilConst(bo.Y)) {
+			other := bo.X
+			if isNilConst(other) {
+				other = bo.Y
+			}
+			if isErrorType(other.Type()) {
+				continue // an earlier stage succeeded
+			}
+		}
+		extra = append(extra, short(org(ft.v))+fmt.Sprintf(" == %v", ft.val))
+	}
+	sort.Strings(extra)
+	c.check(len(extra) == 0, R, fn, "every non-empty command reaches RunCommand", rc.Pos(), "RunCommand is control-dependent only on len(cmdArgs) != 0 and on earlier errors being nil", "the command is run only under an additional condition ("+strings.Join(extra, "; ")+"): other commands are silently skipped and a link without by-products is produced instead of RunCommand's result or error")
 	// link literal
 	want := map[string]func(v ssa.Value, at ssa.Instruction) bool{
 		"Materials": func(v ssa.Value, at ssa.Instruction) bool { p, i := producer(v, at); return p == mat && i == 0 },
